@@ -23,8 +23,11 @@ Spec == Init /\ [][Next]_vars
 \* the two lists have a common explicit expansion
 Related(l1, l2) == DupClosure({l1}) \cap DupClosure({l2}) # {}
 
+\* the root of every list of the domain (a constant: TLC evaluates it once)
+DomRoots == [x \in Domain |-> SeqRoot(x)]
+
 Pair(l1, l2) ==        \* Len(l1) <= Len(l2)
-  SeqRoot(l1) = SeqRoot(l2) =>
+  DomRoots[l1] = DomRoots[l2] =>
      \/ l1 = l2
      \/ Len(l1) < Len(l2) /\ Related(l1, l2) /\ Mutated(l2)
 
@@ -45,7 +48,7 @@ PairStep(a, b) == LET eq == SeqRoot(a) = SeqRoot(b) IN
 
 \* partners exported for l: every colliding longer list of the domain, every expansion,
 \* and two near misses (last element changed / one more element)
-Partners == {l2 \in Domain : Len(l2) > Len(l) /\ SeqRoot(l2) = SeqRoot(l)}
+Partners == {l2 \in Domain : Len(l2) > Len(l) /\ DomRoots[l2] = DomRoots[l]}
             \cup (DupClosure({l}) \ {l})
 NearMiss == {[l EXCEPT ![Len(l)] = Leaf(l[Len(l)][1] + 1)], Append(l, l[Len(l)])}
 Steps == LET ps == SetToSeqL(Partners \cup NearMiss) IN [i \in 1..Len(ps) |-> PairStep(l, ps[i])]
